@@ -1461,10 +1461,11 @@ def evaluate(case, prop=None):
     run = execute(case)
     stats = {}
     vs = check(case, run, stats)
-    if run.exc is None or vs == []:
+    left = bool(stats.get('probes', {}).get('left-the-domain'))
+    if (run.exc is None or vs == []) and not left:
         vs += check_published(case, run)
     executions = 1
-    if prop in (None, 'C10') and not vs and run.exc is None:
+    if prop in (None, 'C10') and not vs and run.exc is None and not left:
         i = restart_point(case)
         if i is not None:
             run_r = execute(case, restart_after=i)
